@@ -149,7 +149,7 @@ def cali_table(rng, l, kind=None):
         kind = rng.choice(['valid', 'valid', 'valid', 'ff', 'range', 'edge', 'dup'])
     vert = sorted(rng.sample(range(-2500, 1500), n)) if n <= 128 else None
     rng.shuffle(vert)
-    horiz = [rng.randrange(-800, 800) for _ in range(n)]
+    horiz = [rng.choice([rng.randrange(-800, 800), rng.randrange(-2000, 2001), 2000, -2000]) for _ in range(n)]
     raw = None
     if kind == 'dup':
         vert = [rng.choice([-100, 0, 250]) for _ in range(n)]
